@@ -14,7 +14,9 @@ RULE = ('Model-based stateful testing: generated histories over 2-4 '
         'transports x 3 namespaces of connect, save_session(value), '
         'get_session, session() blocks with generated mutations (set / '
         'delete / nested update), client DISCONNECT, server.disconnect, '
-        'nested session() blocks for the same client, transport loss and '
+        'nested session() blocks for the same client, a session() block '
+        'still open while its client leaves and another takes its place on '
+        'the same transport and namespace, transport loss and '
         'reconnects on the same transport (same or other '
         'namespace) or a new one, and connection requests to a namespace '
         'whose handler refuses (False / ConnectionRefusedError, optionally '
@@ -75,6 +77,12 @@ def strategy(tier):
                                'same': st.booleans()}),
         st.fixed_dictionaries({'op': st.just('reconnect'), 'j': ci,
                                'same': st.just(True)}),
+        # a session() block is still open (its handler is suspended, or busy)
+        # while its client leaves the namespace, a new client takes the same
+        # place on the same transport and saves a session of its own
+        st.fixed_dictionaries({'op': st.just('straddle'), 'c': ci,
+                               'muts': mut, 'v': val,
+                               'how': st.sampled_from(['cdisc', 'sdisc'])}),
         # the transport asks for a namespace whose connect handler refuses
         st.fixed_dictionaries({'op': st.just('refused'),
                                't': st.integers(0, 3)}),
@@ -264,6 +272,61 @@ def _run(case, w):
             mutate(model[ci])
             touched.add(ci)
             read(ci, 'get')
+        elif k == 'straddle':
+            def mutate(s):
+                for m in op['muts']:
+                    if m['m'] == 'set':
+                        s[m['k']] = copy.deepcopy(m['v'])
+                    elif m['m'] == 'del':
+                        s.pop(m['k'], None)
+
+            def inside():
+                # the owner of the open block goes, a new client comes
+                mutate(model[ci])
+                if op['how'] == 'cdisc':
+                    w.send(c['t'], wire.DISCONNECT, c['ns'])
+                else:
+                    w.do(sio.disconnect(c['sid'], namespace=c['ns']))
+                w.mark_dead(ci)
+                ended(ci)
+                w.recv_all()
+                cj = connect(c['t'], c['ns'])
+                read(cj, 'get')
+                w.do(sio.save_session(w.clients[cj]['sid'],
+                                      copy.deepcopy(op['v']),
+                                      namespace=c['ns']))
+                model[cj] = copy.deepcopy(op['v'])
+                touched.add(cj)
+                return cj
+            if aio:
+                loop = w.h.loop
+                gate = loop.create_future()
+
+                async def blk():
+                    async with sio.session(c['sid'],
+                                           namespace=c['ns']) as s:
+                        mutate(s)
+                        await gate
+                task = loop.spawn(blk())
+                loop.run_until_idle()
+                cj = inside()
+                gate.set_result(None)
+                loop.run_until_idle()
+                if not task.done():
+                    raise Violation('session-block-never-exits', '')
+                task.exception()    # the block's owner is gone: not judged
+            else:
+                cm = sio.session(c['sid'], namespace=c['ns'])
+                s = cm.__enter__()
+                mutate(s)
+                cj = inside()
+                try:
+                    cm.__exit__(None, None, None)
+                except Exception:
+                    pass            # the block's owner is gone: not judged
+            labels['block_open_across_namespace_reconnect'] = True
+            labels['nontrivial'] = True
+            read(cj, 'get')
         elif k == 'nested':
             # a session() block opened while another block for the same
             # client and namespace is still open (a helper called from a
